@@ -138,7 +138,7 @@ def run(ctx):
         r"^wtransport_proto::session::SessionRequest::headers$": (r"^return self\.0$", []),
         r"^wtransport_proto::session::SessionResponse::headers$": (r"^return self\.0$", []),
         r"^wtransport_proto::session::SessionResponse::add$": (r"^return \(\)$", [r"^Headers::insert\(self\.0,key,value\)$"]),
-        r"^wtransport::endpoint::ConnectOptions::builder$": (r"^return ConnectRequestBuilder\(ToString::to_string\(url\),<HashMap<K, V, S> as Default>::default\(\)\)$", []),
+        r"^wtransport::endpoint::ConnectOptions::builder$": (r"^return ConnectRequestBuilder\(ToString::to_string\(url\),(<HashMap<K, V, S> as Default>::default|HashMap::new)\(\)\)$", []),
         r"^wtransport::endpoint::ConnectOptions::url$": (r"^return self\.url$", []),
         r"^wtransport::endpoint::ConnectOptions::additional_headers$": (r"^return self\.additional_headers$", []),
         r"^wtransport::endpoint::ConnectRequestBuilder::add_header$": (r"^return self$", [r"^HashMap::insert\(self\.additional_headers,ToString::to_string\(key\),ToString::to_string\(value\)\)$"]),
@@ -154,8 +154,8 @@ def run(ctx):
     ctx.floor("C02-R9", "request / options forwarders", nfw, 26)
     # the client takes url and additional headers from the options it was given
     fn = A.fn("wtransport::endpoint::Endpoint::connect::{closure#0}")
-    with depth_limit(7):
-        evs2 = [e for p in nonpanic(walk(fn)) for e in event_strs(p)]
+    with depth_limit(16):
+        evs2 = [e for p in nonpanic(walk(fn)) for e in event_strs(p) if e.startswith("SessionRequest::new(") or "additional_headers" in e]
     ctx.check("C02-R9", "connect: the request URL is the options' url", any(re.match(r"^SessionRequest::new\(ok\(Url::parse\(IntoConnectOptions::into_options\(options\)\.url\)\)\)$", e) for e in evs2),
               "Endpoint::connect does not build the request from Url::parse(options.url): %s" % sorted({e[:120] for e in evs2 if e.startswith("SessionRequest::new(")}), where(fn))
     ctx.check("C02-R9", "connect: additional headers are the options' additional_headers", any(re.search(r"::into_iter\(IntoConnectOptions::into_options\(options\)\.additional_headers\)", e) for e in evs2),
